@@ -20,6 +20,7 @@ import sys
 import threading
 
 from . import tlc, realnet as R
+from . import dsref
 from .common import Verdict, main_wrapper, Machinery, seed
 
 ae_mod, exceptions = R.applicationentity, R.exceptions
@@ -113,7 +114,7 @@ def client_thread(i, remote, barrier, nstores, abort_after, results, rnd, shared
             for k in range(nstores):
                 sop = classes[k % 2]
                 ds = make_ds(client, rnd * 100 + k, sop, [10, 300, 2000][k % 3])
-                data = dsutils.encode(ds, ts.is_implicit_VR, ts.is_little_endian)
+                data = dsref.encode(ds, ts.is_implicit_VR, ts.is_little_endian)
                 mid = pynetdicom2._new_msg_id()
                 mids.append(mid)
                 rq = {'ctx': assoc.sop_classes_as_scu[sop][0], 'mid': mid, 'sentD': tok(data), 'sentInst': str(ds.SOPInstanceUID),
